@@ -574,7 +574,8 @@ Section LRaise.
     - cbn [snd fst]. intros H; inversion H; subst. eauto.
   Qed.
 
-  (* An exception raised by a linker hook or by a submodel's _evaluate surfaces unchanged (the linker wraps nothing) and
+  (* WHAT THE CODE DOES (the property's text is silent on raise paths; finding twin|no-error-policy is about exactly this):
+     an exception raised by a linker hook or by a submodel's _evaluate surfaces unchanged (the linker wraps nothing) and
      NOTHING has been stamped: every status series — the linker's and every submodel's — and the linker's own iteration
      counters are exactly what they were before the call (the linker has no error policy of its own). *)
   Theorem user_exception_stamps_nothing sel o t s c :
@@ -721,7 +722,8 @@ Section LStatus.
     - cbn [fst]. split; [eapply sst_set_status; eauto|apply T2_refl].
   Qed.
 
-  (* On EVERY path, every status entry of the linker and of every submodel after solve_t is either what it was or one
+  (* WHAT THE CODE DOES (not a clause of C08; it would change with a repair of finding twin|no-error-policy):
+     on EVERY path, every status entry of the linker and of every submodel after solve_t is either what it was or one
      single value x, and x is '.' or 'F': the linker never writes 'E' or 'S' (it has no error policy of its own — errors=
      and catch_first_error are only handed down to the hooks and to each submodel's _evaluate, see Linker.eval_subs /
      run_hook), and it never writes two different statuses in one call. *)
